@@ -415,7 +415,7 @@ func TestC07(t *testing.T) {
 			for k, n := 0, c.Int("replay.between", 0, 4); k < n; k++ {
 				// Arbitrary genuine traffic of X in between (each kind changes what it
 				// may change; none of it makes the old ping fresh again).
-				switch core.OneOf(c, "replay.between.kind", "pong", "pong", "error-no-keys", "going-down", "announce", "error-generic") {
+				switch core.OneOf(c, "replay.between.kind", "pong", "pong", "error-no-keys", "going-down", "announce", "error-generic", "victim-key-setup") {
 				case "pong":
 					_, _, _ = X.Rtr.PingPong.Send(V.IP(), false, 0)
 				case "error-no-keys":
@@ -424,6 +424,10 @@ func TestC07(t *testing.T) {
 					_ = X.Rtr.DisconnectPing.Send(true, nil)
 				case "announce":
 					_ = X.Rtr.VerifAnnounce()
+				case "victim-key-setup":
+					// V sets up fresh end-to-end keys with X (V initiates).
+					V.Rtr.VerifExpireHello(X.IP())
+					_, _ = V.Rtr.HelloPing.Send(X.IP())
 				default:
 					_ = X.Rtr.ErrorPing.SendGeneric(V.IP(), "between")
 				}
